@@ -4,6 +4,7 @@ import (
 	"fmt"
 	"go/token"
 	"go/types"
+	"morlockverif/checker/internal/core"
 	"sort"
 	"strings"
 
@@ -35,11 +36,14 @@ func runC16(c *Ctx) {
 	r.Rule("R16-noblock", "no mutex is held across a blocking channel receive whose producer needs the same mutex (the halt/publish hand-shake cannot deadlock)", 1)
 	r.Rule("R16-nojoin", "state shared between a halted search that is still unwinding and its successor is immutable, atomic or lock-protected: the evaluation-noise generator guards its non-thread-safe source with a mutex", 1)
 
+	r.Rule("R16-supersede", "a command that halts the engine's search on the way to something else (position, go, ucinewgame) clears the active flag first: otherwise the halted search's forwarder sees its channel close and answers bestmove for a search that was superseded", 4)
+
 	d := newDriverModel(c, "R16-exit-halts")
 	if d == nil {
 		return
 	}
 	c.guard("R16-exit-halts", func() { c16Exits(c, d) })
+	c.guard("R16-supersede", func() { c16Supersede(c, d) })
 	c.guard("R16-close-owner", func() { c16Channels(c, d) })
 	c.guard("R16-locks", func() { c16Locks(c, d) })
 	c.guard("R16-nojoin", func() { c16Random(c) })
@@ -195,7 +199,7 @@ func c16Locks(c *Ctx, d *driverModel) {
 				if !ok || namedOf(fa.X.Type()) == nil || namedOf(fa.X.Type()).Obj() != engT.Obj() {
 					continue
 				}
-				if n := est.Field(fa.Field).Name(); guarded[n] {
+				if n := core.FieldName(est.Field(fa.Field)); guarded[n] {
 					touch[fn] = append(touch[fn], n)
 				}
 			}
@@ -269,7 +273,7 @@ func c16Locks(c *Ctx, d *driverModel) {
 	dst := d.driverT.Underlying().(*types.Struct)
 	atomicOK := false
 	for i := 0; i < dst.NumFields(); i++ {
-		if dst.Field(i).Name() == "active" {
+		if core.FieldName(dst.Field(i)) == "active" {
 			atomicOK = dst.Field(i).Type().String() == "sync/atomic.Bool"
 		}
 	}
@@ -452,8 +456,73 @@ func namedOfRecv(fn *ssa.Function) string {
 	}
 	if f.Signature.Recv() != nil {
 		if n := namedOf(f.Signature.Recv().Type()); n != nil {
-			return n.Obj().Name()
+			return core.ObjName(n.Obj())
 		}
 	}
 	return ""
+}
+
+// c16Supersede: every call, in the command loop, of an Engine method that halts a running search
+// is preceded (within the same iteration) by the deactivation helper - except the stop arm's
+// Halt, whose result is handed to the completion function (that arm answers for the search itself).
+func c16Supersede(c *Ctx, d *driverModel) {
+	r := c.R
+	haltIf := c.find("pkg/engine", "Engine", "haltSearchIfActive")
+	if haltIf == nil {
+		r.Undecided("R16-supersede", "anchor:engine halt helper", "", "", "the engine method that halts the registered search was not found")
+		return
+	}
+	// Engine methods that halt the registered search
+	halting := map[*ssa.Function]bool{}
+	engT := c.P.NamedType("pkg/engine", "Engine")
+	for _, fn := range c.P.AllFuncs {
+		if fn.Signature.Recv() == nil || engT == nil || namedOf(fn.Signature.Recv().Type()) == nil || namedOf(fn.Signature.Recv().Type()).Obj() != engT.Obj() {
+			continue
+		}
+		for _, b := range fn.Blocks {
+			for _, ins := range b.Instrs {
+				if call, ok := ins.(ssa.CallInstruction); ok && call.Common().StaticCallee() == haltIf {
+					halting[fn] = true
+				}
+			}
+		}
+	}
+	n := 0
+	for _, b := range d.process.Blocks {
+		if !(d.loopHead == b || d.loopHead.Dominates(b)) {
+			continue
+		}
+		for _, ins := range b.Instrs {
+			call, ok := ins.(*ssa.Call)
+			if !ok || !halting[call.Call.StaticCallee()] {
+				continue
+			}
+			n++
+			callee := call.Call.StaticCallee()
+			cons := fmt.Sprintf("%s arm: call of Engine.%s", d.armOf(b), callee.Name())
+			if len(d.callsDominating(b, d.ensureInactive)) > 0 {
+				r.Pass("R16-supersede", cons, c.pos(call.Pos()), "", "preceded by the deactivation helper")
+				continue
+			}
+			// the stop idiom: the halted PV is handed to the completion function
+			completes := false
+			for _, ref := range *call.Referrers() {
+				if ex, ok := ref.(*ssa.Extract); ok && ex.Index == 0 {
+					for _, r2 := range *ex.Referrers() {
+						if c2, ok := r2.(ssa.CallInstruction); ok && c2.Common().StaticCallee() == d.searchCompleted {
+							completes = true
+						}
+					}
+				}
+			}
+			if completes && callee == d.engHalt {
+				r.Pass("R16-supersede", cons, c.pos(call.Pos()), "", "this arm completes the halted search itself")
+				continue
+			}
+			r.Fail("R16-supersede", cons, c.pos(call.Pos()), "", "the engine's search is halted here while the active flag is still set: the forwarder of the halted search will see its channel close and emit bestmove for a search that was superseded")
+		}
+	}
+	if n == 0 {
+		r.Undecided("R16-supersede", "halting engine calls in the command loop", c.pos(d.process.Pos()), "", "none found")
+	}
 }
